@@ -198,7 +198,8 @@ K_Spawn(k) ==
        /\ ts' = [ts EXCEPT ![k] = IF opts[k] THEN "stop" ELSE "run", ![j] = IF opts[k] THEN "stop" ELSE "run"]
        /\ ev' = [ev EXCEPT ![k] = Ev(EvOfSpawn(CurOp(k).k), 0), ![j] = Ev("sig", SIGSTOP)]
        /\ opts' = [opts EXCEPT ![j] = opts[k]]
-  /\ UNCHANGED <<pc, pend, nchld, gtok, regs, scnt, lph, esc, cvars, tvars, ovars>>
+       /\ gtok' = IF Noise /\ CurOp(k).k = "C" THEN [gtok EXCEPT ![j] = 1] ELSE gtok   \* joins a group stop in effect
+  /\ UNCHANGED <<pc, pend, nchld, regs, scnt, lph, esc, cvars, tvars, ovars>>
 K_SpawnRet(k) ==
   /\ Ready(k) /\ sub[k] = "sp" /\ ~InVforkWait(k)
   /\ sub' = [sub EXCEPT ![k] = ""] /\ pc' = [pc EXCEPT ![k] = @ + 1]
@@ -276,12 +277,13 @@ KNext == K_Raise \/ K_Exec \/ \E k \in Tasks : KStep(k)
 \* Resume task k (held) with signal s.  Only a signal-delivery-stop honours s.
 Resume(k, s) ==
   IF ev[k].t = "sig" /\ s = SIGSTOP THEN
-       \* SIGSTOP is delivered: group stop.  k reports it at once; its sibling threads owe one
-       \* participation each (and k itself may be asked once more: observed on 6.x kernels).
+       \* SIGSTOP is delivered: group stop.  k reports it at once; every thread of a multi-threaded
+       \* group owes one more participation (the stopped state of the group persists under
+       \* PtraceCont, and a thread created later joins it: task_join_group_stop).
        /\ ts' = [ts EXCEPT ![k] = "stop"]
        /\ ev' = [ev EXCEPT ![k] = Ev("grp", SIGSTOP)]
-       /\ gtok' = [j \in Tasks |-> IF ~Noise THEN gtok[j] ELSE IF j \in Group(k) /\ j # k /\ Alive(j) THEN 1
-                                   ELSE IF j = k /\ Cardinality({i \in Group(k) : Alive(i)}) > 1 THEN 1 ELSE gtok[j]]
+       /\ gtok' = [j \in Tasks |-> IF Noise /\ j \in Group(k) /\ Alive(j) /\ Cardinality({i \in Group(k) : Alive(i)}) > 1
+                                     THEN (IF gtok[j] < 3 THEN gtok[j] + 1 ELSE 3) ELSE gtok[j]]
        /\ nchld' = ChldTo(k) /\ UNCHANGED pend
        /\ UNCHANGED scnt
   ELSE /\ ts' = [ts EXCEPT ![k] = "run"]
